@@ -167,22 +167,27 @@ def run(ctx):
                               sanitize=not ctx.quick, ndebug=ctx.quick)
     sd = os.path.join(vlib.VERIF, "spec", SPEC)
 
-    # 1. every history of one client over push/pop/unblock_push/unblock_pop/destroy, limits 1..4
-    #    (the limit is picked in Init), replayed on the real limited_queue<int> / <tracked item>,
+    # 1. every history of one client over push/pop/unblock_push/unblock_pop/destroy within the bounds,
+    #    limits 1..4, every edge of the state graph replayed on the real limited_queue<int> and on
+    #    limited_queue<instance-counting item, access-checking containers, misuse-checking lock>,
     #    consumers and producers polling or awaiting in coroutines
     def hdr(k, st0):
-        if ctx.quick:
-            return {"limit": st0["limit"], "mode": "coro" if k % 2 else "poll", "pmode": "coro" if (k // 2) % 2 else "poll",
-                    "item": "tracked" if (k // 4) % 2 else "int"}
-        return {"limit": st0["limit"], "mode": "all", "pmode": "all", "item": "all"}
+        # quick: one variant per scenario, rotating over the 8 combinations; thorough: that variant and
+        # its complement, so every edge runs with both item types, polled and awaited on both sides
+        names = [("int", "tracked"), ("poll", "coro"), ("poll", "coro")]
+        bits = [(k >> i) & 1 for i in range(3)]
+        vs = ["/".join(names[i][bits[i]] for i in range(3))]
+        if not ctx.quick:
+            vs.append("/".join(names[i][1 - bits[i]] for i in range(3)))
+        return {"limit": st0["limit"], "variants": vs}
     deep = {} if ctx.quick else {"ExtraPush": 4, "ExtraPop": 3, "MaxUnblockPush": 3, "MaxUnblockPop": 2}
     for limit in LIMITS:
         # one TLC run per limit: the path cover wants a single initial state
         consts = dict(deep)
         consts["Limits"] = "{%d}" % limit
-        covered_graph_replay(ctx, SPEC, SPEC, "LimitedQueue_seq.cfg", "seq_l%d" % limit, rp, proj, header_fn=hdr,
-                     merge_re=MERGE, must_take=ACTIONS, constants=consts, extra_random=200 if ctx.quick else 2000,
-                     tlc_kw={"workers": WORKERS})
+        covered_graph_replay(ctx, SPEC, SPEC, "LimitedQueue_seq.cfg", "seq_l%d" % limit, rp, proj,
+                             header_fn=hdr, merge_re=MERGE, must_take=ACTIONS, constants=consts,
+                             extra_random=200 if ctx.quick else 2000, tlc_kw={"workers": WORKERS})
 
     # 2. all interleavings of 2 producer + 2 consumer threads at critical-section grain (design level)
     conc = None if ctx.quick else {"ExtraPop": 3, "MaxUnblockPush": 2}
@@ -206,9 +211,15 @@ def run(ctx):
         raise vlib.MachineryError("LimitedQueue properties accept the pre-fix model (Fixed = FALSE): vacuous")
     ctx.extra["prefix_model_rejected_by"] = r.violation
 
-    ctx.assume("interleavings of producer/consumer threads are decided on the specification (critical-section grain: "
-               "every access to the queue state is under _mx; promise resolutions outside the lock are separate "
-               "actions); the implementation is bound to it by single-threaded replays of every specification edge")
-    ctx.assume("item type int and an instance-counting item type; limits 1..4; limit 0 (no progress possible) excluded")
+    ctx.assume("interleavings of producer/consumer threads are decided on the specification at critical-section grain "
+               "(2 producers + 2 consumers, TLC only); the implementation is bound to that grain by single-threaded "
+               "replays of every specification edge, with instrumented containers/lock (the library's Queue/Lock "
+               "template parameters) reporting any access to queue state outside the lock and any coroutine resumed "
+               "under it; no real-thread schedule is executed for this property")
+    ctx.assume("item types int and an instance-counting class; limits 1..4; limit 0 (no push can ever complete) excluded; "
+               "limited_queue<void> does not instantiate (std::pair<void,...>) and is not covered")
     ctx.assume("futures are abstracted to pending|value|exception|canceled with a single resolver each "
-               "(justified by C01/C02); the replay uses the real futures")
+               "(justified by C01/C02); the replay uses the real futures; a future awaited by at most one coroutine")
+    ctx.assume("bounds: at most limit+3 pushes, limit+2 pops, 2 unblock_push, 2 unblock_pop per history in quick "
+               "(limit+4, limit+3, 3, 2 in thorough); concurrent model: limit+3 pushes, limit+2 (thorough limit+3) pops, "
+               "1 (thorough 2) unblock_push, 1 unblock_pop")
